@@ -64,6 +64,11 @@ fn main() {
             if id == "C17" {
                 std::process::exit(c17::check_c17(tier, seed));
             }
+            if id == "C14" {
+                std::process::exit(driver::check_simple("C14", tier, seed, 8000, 200_000, "exploration", e3::C14_RULE,
+                    &["thread schedules are sampled, not enumerated", "the liveness clause (stall mechanisms always let writers proceed eventually) cannot be decided by testing: a history that takes longer than 60 s makes the run inconclusive (exit 2), never a violation", "scans are not part of this check (C05/C06)"],
+                    e3::replay_c14, "histories"));
+            }
             if id == "C06" {
                 std::process::exit(driver::check_simple("C06", tier, seed, 9600, 200_000, "exploration", e3::C06_RULE,
                     &["owned schedules cover the windows named by the pause points; sampled schedules are samples of real thread interleavings", "intruders that need the journal lock or the keyspace-map write lock (clear, rotation, ingestion finish, keyspace create/delete) cannot run inside the window by construction"],
@@ -107,6 +112,11 @@ fn main() {
                 std::fs::write(out, serde_json::to_string(&o).unwrap()).unwrap();
                 return;
             }
+            if id == "C14" {
+                let o = e3::shard_c14(tier, seed, shard, cases);
+                std::fs::write(out, serde_json::to_string(&o).unwrap()).unwrap();
+                return;
+            }
             if id == "C06" {
                 let o = e3::shard_c06(tier, seed, shard, cases, &exclude);
                 std::fs::write(out, serde_json::to_string(&o).unwrap()).unwrap();
@@ -116,6 +126,21 @@ fn main() {
         }
         "replay" => {
             let file = args.get(3).expect("file");
+            if id == "C14" {
+                let s = std::fs::read_to_string(file).expect("readable replay file");
+                let v: serde_json::Value = serde_json::from_str(&s).expect("json");
+                match e3::replay_c14(&v, &BTreeSet::new()) {
+                    Some(msg) => {
+                        println!("replay fails: {msg}");
+                        println!("VIOLATION property={id} replay={file}");
+                        std::process::exit(1);
+                    }
+                    None => {
+                        println!("replay passes");
+                        std::process::exit(0);
+                    }
+                }
+            }
             if id == "C06" {
                 let s = std::fs::read_to_string(file).expect("readable replay file");
                 let v: serde_json::Value = serde_json::from_str(&s).expect("json");
@@ -192,6 +217,41 @@ fn main() {
                 }
             }
             let v = driver::load_case_file(std::path::Path::new(file)).expect("readable replay file");
+            if let Some(h) = v.get("threaded_history") {
+                // recorded multi-threaded transaction history: the checker re-decides it
+                let recs: Vec<interp::TxRec> = serde_json::from_value(h.get("recs").cloned().unwrap_or_default()).expect("history");
+                let flat: Vec<(Vec<u8>, Vec<u8>)> = serde_json::from_value(h.get("final_a").cloned().unwrap_or_default()).expect("final state");
+                let mut base = model::State::new();
+                base.insert("a".into(), model::Map::new());
+                let mut fin = model::State::new();
+                fin.insert("a".into(), flat.into_iter().collect());
+                match ser::check_ser(&base, &recs, &fin, 2_000_000) {
+                    ser::SerResult::Fail(msg) => {
+                        println!("replay fails: {msg}");
+                        println!("VIOLATION property={id} replay={file}");
+                        std::process::exit(1);
+                    }
+                    _ => {
+                        println!("replay passes");
+                        std::process::exit(0);
+                    }
+                }
+            }
+            if let Some(sd) = v.get("threaded_counters_seed").and_then(|x| x.as_u64()) {
+                let dir = driver::scratch_root().join("t");
+                std::fs::create_dir_all(&dir).ok();
+                match e3::threaded_c08(&dir.join("db"), sd) {
+                    Err(msg) => {
+                        println!("replay fails: {msg}");
+                        println!("VIOLATION property={id} replay={file}");
+                        std::process::exit(1);
+                    }
+                    Ok(_) => {
+                        println!("replay passes (schedule-dependent)");
+                        std::process::exit(0);
+                    }
+                }
+            }
             if let Some(def) = props::e1(&id) {
                 let case: case::Case = serde_json::from_value(v).expect("case");
                 let findings = driver::load_findings();
